@@ -540,7 +540,9 @@ SIGNER_OPTION_FORMS = ['', 'cert-authority', 'valid-after=19700101001640Z', 'val
                        'namespaces', 'valid-after', 'foo=bar', 'foo', 'namespaces="a b"', 'namespaces=a\\ b',
                        '"namespaces=file"', 'valid_before=2000', ',', '=x', 'a=1,a=2', 'namespaces="file',
                        'namespaces=file\\', 'valid-after=5,valid-after=junk', 'valid-after=junk,valid-after=5',
-                       'namespaces=file,namespaces=git', 'cert-authority=yes', 'valid-before=1500,cert-authority']
+                       'namespaces=file,namespaces=git', 'cert-authority=yes', 'valid-before=1500,cert-authority',
+                       'namespaces="file",valid-before=19700101003320Z', 'namespaces="file",valid-after=19700101001640Z',
+                       'cert-authority,namespaces="file",valid-before=19700101003320Z']
 
 
 def gen_signers_text(rng: Any, keys_: List[Any]) -> str:
@@ -702,7 +704,10 @@ def correspondence(ctx: Ctx) -> CorrResult:
                     pp = '*'
                 oo = rng.choice(['', '', 'namespaces="%s"' % case['ns'], 'namespaces="*"',
                                  'valid-after=19700101001640Z', 'valid-before=19700101003320Z',
-                                 'valid-after=19700101001640Z,valid-before=19700101003320Z', 'namespaces="git,f*"'])
+                                 'valid-after=19700101001640Z,valid-before=19700101003320Z', 'namespaces="git,f*"',
+                                 'namespaces="%s",valid-before=19700101003320Z' % case['ns'],
+                                 'namespaces="*",valid-after=19700101001640Z',
+                                 'valid-after=19700101001640Z,namespaces="%s",valid-before=19700101003320Z' % case['ns']])
                 if 'ca' in case and rng.random() < 0.7:
                     good = pp + ' ' + ','.join(x for x in ('cert-authority', oo) if x) + ' ' + pub_line(case['ca'])
                 else:
@@ -1357,6 +1362,14 @@ def _oracle_sshsig(ctx: Ctx, rng: Any, hist: Hist, res: OracleResult, algs: List
                             (2000.5, False)):
                 expect(v(msg, sig, 'alice', f'alice valid-after=19700101001640Z,valid-before=19700101003320Z {line}\n', now=now), ok,
                        'sshsig-entry-window-wrong', f'entry window [1000,2000) at now={now}', {**rp, 'now': str(now)})
+            # options combine: a namespace restriction does not switch the validity window off (nor the reverse)
+            for now, ok in ((999, False), (1000, True), (1999, True), (2000, False)):
+                for opts in ('namespaces="file",valid-after=19700101001640Z,valid-before=19700101003320Z',
+                             'valid-after=19700101001640Z,valid-before=19700101003320Z,namespaces="f*"'):
+                    expect(v(msg, sig, 'alice', f'alice {opts} {line}\n', now=now), ok, 'sshsig-entry-window-wrong',
+                           f'entry with namespaces= and window [1000,2000) at now={now}', {**rp, 'now': str(now)})
+            expect(v(msg, sig, 'alice', f'alice namespaces="git",valid-after=19700101001640Z {line}\n', now=1500), False,
+                   'sshsig-accepts-other-namespace', 'namespace git only, inside the window', rp)
             # same digest passed pre-hashed
             dg = hashlib.new(hash_name, msg).digest()
             expect(v(dg, sig, 'alice', base, is_hashed=True), True, 'sshsig-rejects-prehashed', 'pre-hashed data', rp)
